@@ -263,6 +263,9 @@ def run(tier):
         items.append((size, prog, "reads"))
     items.extend(label_programs(tier))
     items.extend(slot_programs())
+    # return analysis: every {returns, falls through} assignment over conditional chains closing a routine
+    for size, prog, _inputs, lab in gen_ctrl.return_chains(4 if tier == "thorough" else 3):
+        items.append((size, prog, "return-chain"))
     rep.bounds["recipes"] = len(items)
     for sh in common.pmap_shards(_worker_recipes, items, order_seed=rep.seed):
         rep.merge(sh)
